@@ -30,7 +30,11 @@ SETTINGS = [
     ("rnd", ["Random", {}], "real"),
 ]
 REWARDS = {"real": [-1.5, 0, 2, 1e6], "nonneg": [0, 1e-9, 1, 3], "binary": [0, 1],
-           "int8": [100, 0, 90], "int32": [2 ** 30, 0, 2 ** 30 + 5]}
+           "int8": [100, 0, 90], "int32": [2 ** 30, 0, 2 ** 30 + 5],
+           # close means at a high level: the soft-max must depend on the differences of the means only
+           "level": [2 ** 30, 2 ** 30 + 1 / 64, 2 ** 30 + 1]}
+LEVEL = [("sm_lvl007", ["Softmax", {"tau": 0.07}]), ("sm_lvl0011", ["Softmax", {"tau": 0.011}]),
+         ("ucb_lvl", ["UCB1", {"alpha": 1}]), ("eg_lvl", ["EpsilonGreedy", {"epsilon": 0}])]
 # rewards handed over as narrow integer arrays whose per-arm totals leave the range of the dtype
 NARROW = [("eg0", "int8"), ("eg0", "int32"), ("ucb1", "int8"), ("sm1", "int8"), ("pop", "int8"), ("pop", "int32")]
 LABELS = {"int": ([0, 2], 1), "str": (["b", ""], "c")}          # falsy labels (0, "") included on purpose
@@ -68,6 +72,10 @@ def shards(tier, seed):
         for labels in LABELS:
             out.append({"setting": name + "/" + dt, "lp": lp, "rk": dt, "labels": labels, "part": [0, 1], "depth": 3,
                         "seed": 21 + seed, "dtype": dt})
+    for name, lp in LEVEL:
+        for labels in LABELS:
+            out.append({"setting": name, "lp": lp, "rk": "level", "labels": labels, "part": [0, 1], "depth": 3,
+                        "seed": 21 + seed})
     out.sort(key=lambda s: {"real": 0, "nonneg": 1, "binary": 2}.get(s["rk"], 3) + (s["setting"] == "rnd"))
     return out
 
